@@ -54,6 +54,16 @@ type c04Frame struct {
 	// written block by block (for payloads far beyond the buffering limit: nothing of that size is
 	// materialised on either side)
 	Pat bool `json:"pat"`
+	// PHex: the payload bytes given explicitly (Plen = their number); else generated from Pseed
+	PHex string `json:"phex"`
+}
+
+func (f c04Frame) payloadBytes() []byte {
+	if f.PHex != "" {
+		b, _ := hex.DecodeString(f.PHex)
+		return b
+	}
+	return verifPayload(f.Pseed, f.Plen)
 }
 
 // verifCapture is a BinaryUnmarshaler that keeps the bytes it is given.
@@ -73,6 +83,9 @@ type c04Step struct {
 	SegSeed int64      `json:"segseed"`
 	SegMax  int        `json:"segmax"`
 	SegCuts []int      `json:"segcuts"` // seg = "cuts": offsets into the chunk at which a new segment starts
+	// seg = "cuts": SegPauseMS[i] = how long the peer's byte stream stalls at SegCuts[i] (before the
+	// segment that starts there is written)
+	SegPauseMS []int `json:"segpause_ms"`
 	Raw     string     `json:"raw"` // hex, written as is, not waited for
 	// op = "send": how the caller awaits its reply: "" = c.send + resp.data(); "unmarshal" = c.send +
 	// resp.UnmarshalTo; "message" = c.SendMessage; "for" = c.SendFor expecting a reply of type InTyp
@@ -89,6 +102,8 @@ type c04Scenario struct {
 	StepMS   int       `json:"step_ms"` // watchdog per waiting point (default 3000)
 	First    string    `json:"first"`   // hex of the first frame of the connection (default: a successful connection event)
 	FirstBeh *c04Frame `json:"first_beh"` // what the handler does if it is offered the first message
+	// TimeoutMS > 0: the client is built WithTimeout (a read deadline armed at every header read, covering the message)
+	TimeoutMS int `json:"timeout_ms"`
 }
 
 type c04HandlerObs struct {
@@ -414,9 +429,12 @@ func errClass(err error) string {
 }
 
 // writeCuts writes data in segments that start at the given offsets.
-func writeCuts(w io.Writer, data []byte, cuts []int) error {
+func writeCuts(w io.Writer, data []byte, cuts []int, pauses ...int) error {
 	prev := 0
-	for _, c := range append(append([]int(nil), cuts...), len(data)) {
+	for i, c := range append(append([]int(nil), cuts...), len(data)) {
+		if i > 0 && i-1 < len(pauses) && pauses[i-1] > 0 {
+			time.Sleep(time.Duration(pauses[i-1]) * time.Millisecond)
+		}
 		if c > len(data) {
 			c = len(data)
 		}
@@ -496,6 +514,9 @@ func runC04(sc c04Scenario) c04Result {
 	}
 
 	opts := []ClientOpt{WithVersion(Version1_0_1), WithLogger(obs)}
+	if sc.TimeoutMS > 0 {
+		opts = append(opts, WithTimeout(time.Duration(sc.TimeoutMS)*time.Millisecond))
+	}
 	has62 := false
 	for _, t := range sc.Handlers {
 		if t == 62 {
@@ -646,7 +667,7 @@ stepLoop:
 				}
 				ids = append(ids, id)
 				if !streamed {
-					data = append(data, peerFrame(f.Rsv, f.Ver, f.Typ, id, verifPayload(f.Pseed, f.Plen))...)
+					data = append(data, peerFrame(f.Rsv, f.Ver, f.Typ, id, f.payloadBytes())...)
 				}
 			}
 			werr := make(chan error, 1)
@@ -655,7 +676,7 @@ stepLoop:
 					// frame by frame; a patterned payload goes out in 64 KiB writes
 					for k, f := range st.Frames {
 						if !f.Pat {
-							if _, err := peer.Write(peerFrame(f.Rsv, f.Ver, f.Typ, ids[k], verifPayload(f.Pseed, f.Plen))); err != nil {
+							if _, err := peer.Write(peerFrame(f.Rsv, f.Ver, f.Typ, ids[k], f.payloadBytes())); err != nil {
 								werr <- err
 								return
 							}
@@ -685,7 +706,7 @@ stepLoop:
 					return
 				}
 				if st.Seg == "cuts" {
-					werr <- writeCuts(peer, data, st.SegCuts)
+					werr <- writeCuts(peer, data, st.SegCuts, st.SegPauseMS...)
 					return
 				}
 				werr <- writeSegments(peer, data, st.Seg, st.SegSeed, st.SegMax)
